@@ -355,7 +355,7 @@ def compare (ri : Int → Int → Bool) (rf32 : Float32 → Float32 → Bool) (r
       match a.ty with
       | .f32 => rf32 (toF32 a.bits) (toF32 b.bits)
       | _ => rf64 (toF64 a.bits) (toF64 b.bits)
-  .ok ⟨.generic, if r then 1 else 0⟩
+  .ok ⟨.generic, r.toNat⟩
 
 /-- `Value::eq` -/
 def eq (a b : Value) (mask : Nat) : Out Value :=
